@@ -67,7 +67,7 @@ def run(ctx):
 
     # (2) exact constructors and arithmetic ----------------------------------------------------
     n2 = ctx.scale(1500, 20000)
-    ops = ["+", "-", "*", "/", "%", "//", "divmod", "neg", "abs", "pos", "r+", "r-", "r*", "r/", "r%"]
+    ops = ["+", "-", "*", "/", "%", "//", "divmod", "neg", "abs", "pos", "r+", "r-", "r*", "r/", "r%", "rdivmod"]
     for i in range(n2):
         a = Fraction(rng.randrange(-5000, 5000), rng.randrange(1, 1001))
         b = Fraction(rng.randrange(-5000, 5000), rng.randrange(1, 1001))
@@ -103,6 +103,9 @@ def run(ctx):
             elif op == "r%":
                 if a == 0: continue
                 r, e = B % A, None
+            elif op == "rdivmod":
+                if a == 0: continue
+                r, e = divmod(B, A), None
         except Exception as ex:
             res.violation(case, "arithmetic raised", impl=core.exc_name(ex)); continue
         if e is not None:
@@ -112,7 +115,7 @@ def run(ctx):
                 res.violation(case, "inexact or untyped result", impl="%s:%s" % (type(r).__name__, r), expect=str(e))
             res.traces += 1
         else:
-            x, y = (a, b) if op != "r%" else (b, a)
+            x, y = (a, b) if op not in ("r%", "rdivmod") else (b, a)
 
             def chk(resp, case=case, r=r, op=op):
                 res.traces += 1
